@@ -137,7 +137,12 @@ class Gen:
         alt = r.choice(['mem', 'null'])
         bfl = [Flow('Y', 'READ', [Dep('in', TT(Pn, 'V', k)),
                                   Dep('out', TT(Cn, 'P1', k, idx // 2), guard=(idx % 2).eq(0), f=TT(Cn, 'Q1', k, idx // 2))])]
-        if use_g: bfl.append(Flow('Z', 'CTL', [Dep('out', TT(Gn, 'Z', k))]))
+        if use_g:
+            # the control flow is declared after or BEFORE the data flow (the order of declaration is the order of the
+            # outputs inside an activation message)
+            zf = Flow('Z', 'CTL', [Dep('out', TT(Gn, 'Z', k))])
+            if r.random() < 0.5: bfl.append(zf)
+            else: bfl.insert(0, zf)
         bparams = [Param('k', 'range', krng), Param('j', 'range', jr)]
         P.add(TaskClass(Bn, bparams, bplace, bfl, prio=self.prio('k', 'j')))
         # consumers
